@@ -13,7 +13,7 @@ TRANSPARENT_FWD = re.compile(
 )
 
 TRANSPARENT_BWD = re.compile(
-    r"(std::clone::Clone>?::clone$|::clone$|std::ops::Deref>?::deref$|std::ops::DerefMut>?::deref_mut$"
+    r"(^(std|core)::hint::must_use$|std::clone::Clone>?::clone$|::clone$|std::ops::Deref>?::deref$|std::ops::DerefMut>?::deref_mut$"
     r"|std::convert::Into<.*>>?::into$|^std::convert::Into::into$|std::convert::From<.*>>?::from$|^std::convert::From::from$"
     r"|std::borrow::ToOwned>?::to_owned$|std::convert::AsRef<.*>>?::as_ref$|^std::convert::AsRef::as_ref$"
     r"|std::borrow::Borrow<.*>>?::borrow$|^std::option::Option::<T>::as_ref$|^std::option::Option::<T>::as_deref$"
